@@ -264,4 +264,5 @@ const prelude = `(declare-sort Str 0)
 (declare-fun ixor (Int Int) Int)
 (declare-fun ishl (Int Int) Int)
 (declare-fun ishr (Int Int) Int)
+(declare-fun chan_cap (Int) Int)
 `
